@@ -367,7 +367,7 @@ class Run:
 
     # ---- replay files ---------------------------------------------------
     def write_replay(self, kind, payload):
-        d = os.path.join(VERIF, "replays", self.prop_id)
+        d = os.path.join(os.environ.get("VERIF_OUT", VERIF), "replays", self.prop_id)
         os.makedirs(d, exist_ok=True)
         body = {
             "property": self.prop_id,
@@ -426,7 +426,7 @@ class Run:
             "violations": len(self.violations),
             "violation_lines": self.violations,
         }
-        d = os.path.join(VERIF, "evidence")
+        d = os.path.join(os.environ.get("VERIF_OUT", VERIF), "evidence")
         os.makedirs(d, exist_ok=True)
         with open(os.path.join(d, "%s.json" % self.prop_id), "w") as f:
             json.dump(ev, f, indent=1, sort_keys=True, default=repr)
